@@ -292,7 +292,11 @@ func (g G) planC11() *Plan {
 	for i := 0; i < n; i++ {
 		lab := fmt.Sprintf("s%d", i)
 		var m *MsgSpec
-		switch g.weighted(lab+".k", 14, 10, 10, 10, 8, 12, 8, 8, 4, 3, 13) {
+		switch g.weighted(lab+".k", 14, 10, 10, 10, 8, 12, 8, 8, 4, 3, 13, 3) {
+		case 11:
+			// the clock moves between bootstrap and use (seconds … years): whatever the provider remembers must not outlive its truth
+			p.Steps = append(p.Steps, Step{K: "advance", Ns: g.drawAdvance(lab+".adv", nil)})
+			continue
 		case 0:
 			m = &MsgSpec{Kind: "probe", ProbeEP: "sso", SP: g.intn(lab+".sp", nsp), Binding: g.drawBinding(lab + ".b"), Style: g.drawStyle(lab + ".st")}
 		case 1:
